@@ -315,6 +315,24 @@ def tolerated_kind_sites(facts, rep, rule, D):
                     in_trait = ob_ is not None and ob_.impl and ob_.impl.get("trait") and \
                         ob_.impl["trait"].rsplit("::", 1)[-1] in ("FileSystem", "AsyncFileSystem")
                     ok = name == "create_dir" and bool(in_trait)
+                    # ... and there only where the occupant has been seen to be a directory (Tables M / U / O decide the precise
+                    # shape for the three backends that have one; any other backend needs some type test in front of it)
+                    root_b = facts.body(b.root) if b.kind == "Closure" and b.root else b
+                    if ok and root_b is not None and root_b.id == owner:     # (inside a helper the test sits at the call site)
+                        trk = get_tracer(facts, b)
+                        typed = False
+                        for g in trk.guards_at(blk.idx):
+                            for x in walk(g[1]):
+                                if (x[0] == "field" and x[2] == "file_type") or \
+                                        (x[0] == "call" and isinstance(x[1], str) and x[1].rsplit("::", 1)[-1] in (
+                                            "is_dir", "is_file", "metadata", "symlink_metadata", "file_type")):
+                                    typed = True
+                            if g[0] == "variant" and len(g) > 3 and g[3] in ("Directory", "File"):
+                                typed = True
+                        n += 1
+                        rep.ob(rule, owner, "DirectoryExists is built under a type test of the occupant", typed, "" if typed else
+                               "%s answers DirectoryExists without having looked at the occupant's type: a file in the way is reported as a "
+                               "directory, which create_dir_all accepts as success" % b.id, st.line)
                     n += 1
                     rep.ob(rule, owner, "DirectoryExists is built only by a backend's create_dir", ok, "" if ok else
                            "%s builds VfsErrorKind::DirectoryExists outside a backend's create_dir: create_dir_all tolerates that kind, so "
